@@ -335,6 +335,7 @@ func fmtVars(mm map[string]string) string {
 func refScan(p *Prog, text string, v Variants) ([]Span, *Ref) {
 	r := newRef(p, text)
 	r.v = v
+	r.limit = 20_000_000
 	var out []Span
 	pos := 0
 	for pos < len(text) {
